@@ -286,7 +286,7 @@ func (c Collection) MarshalJSON() ([]byte, error) {
 	if c.Last != nil {
 		notEmpty = JSONWriteItemProp(&b, "last", c.Last) || notEmpty
 	}
-	notEmpty = JSONWriteIntProp(&b, "totalItems", int64(c.TotalItems)) || notEmpty
+	notEmpty = JSONWriteUintProp(&b, "totalItems", uint64(c.TotalItems)) || notEmpty
 	if c.Items != nil {
 		notEmpty = JSONWriteItemCollectionProp(&b, "items", c.Items, false) || notEmpty
 	}
